@@ -189,12 +189,70 @@ def _loop_headers(T):
             if b is not None and b >= 0 and b < len(T) and T[b].text == "{": out.append((i, b))
     return out
 
-def _align_seg(S, C, i1, i2, j1, j2, s2c):
+def _tok_diff(S, C, i1, i2, j1, j2, s2c):
     if i2 <= i1 or j2 <= j1: return
     sm = difflib.SequenceMatcher(None, [t.text for t in S[i1:i2]], [t.text for t in C[j1:j2]], autojunk=False)
     for tag, a1, a2, b1, b2 in sm.get_opcodes():
         if tag == "equal":
             for d in range(a2 - a1): s2c[i1 + a1 + d] = j1 + b1 + d
+
+def _chunks(T, i1, i2):
+    """statement-like chunks of T[i1:i2]: each ends with a `;`, `{` or `}` (any nesting level; brackets () [] are skipped)"""
+    out = []; start = i1; i = i1
+    while i < i2:
+        x = T[i].text
+        if x in ("(", "["):
+            j = match_close(T, i)
+            i = (j if j is not None and j < i2 else i) + 1
+            continue
+        if x in (";", "{", "}"):
+            out.append((start, i + 1)); start = i + 1
+        i += 1
+    if start < i2: out.append((start, i2))
+    return out
+
+def _align_seg(S, C, i1, i2, j1, j2, s2c):
+    """two-level alignment: statement-like chunks first (identical chunks, then - between them - chunks that start with the
+    same token and are similar), tokens inside paired chunks second. A plain token diff tends to match stray punctuation of a
+    deleted statement and to lose the keyword of the statement that follows it (and with it the anchor of a proof hint)."""
+    if i2 <= i1 or j2 <= j1: return
+    cs, cc = _chunks(S, i1, i2), _chunks(C, j1, j2)
+    if len(cs) < 2 or len(cc) < 2:
+        _tok_diff(S, C, i1, i2, j1, j2, s2c); return
+    def keys(T, ch):
+        # chunk text plus the brace depth at which the chunk ends (a bare `}` is only "the same" closing brace at the same depth)
+        out = []; depth = 0
+        for a, b in ch:
+            for t in T[a:b]:
+                if t.text == "{": depth += 1
+                elif t.text == "}": depth -= 1
+            out.append(" ".join(t.text for t in T[a:b]) + " @%d" % depth)
+        return out
+    ks, kc = keys(S, cs), keys(C, cc)
+    sm = difflib.SequenceMatcher(None, ks, kc, autojunk=False)
+    def pair_gap(a1, a2, b1, b2):
+        # unmatched chunk runs: pair in order when the first token agrees and the chunks are similar enough
+        b = b1
+        for a in range(a1, a2):
+            best = None
+            for q in range(b, b2):
+                if S[cs[a][0]].text == C[cc[q][0]].text:
+                    r = difflib.SequenceMatcher(None, ks[a].split()[:-1], kc[q].split()[:-1], autojunk=False).ratio()
+                    if r >= 0.4 and (best is None or r > best[1]): best = (q, r)
+            if best is not None:
+                q = best[0]
+                _tok_diff(S, C, cs[a][0], cs[a][1], cc[q][0], cc[q][1], s2c)
+                # terminators of paired chunks correspond
+                if S[cs[a][1] - 1].text == C[cc[q][1] - 1].text: s2c[cs[a][1] - 1] = cc[q][1] - 1
+                if S[cs[a][0]].text == C[cc[q][0]].text: s2c[cs[a][0]] = cc[q][0]
+                b = q + 1
+    for tag, a1, a2, b1, b2 in sm.get_opcodes():
+        if tag == "equal":
+            for d in range(a2 - a1):
+                (sa, sb), (ca, cb) = cs[a1 + d], cc[b1 + d]
+                for e in range(sb - sa): s2c[sa + e] = ca + e
+        else:
+            pair_gap(a1, a2, b1, b2)
 
 def _align(S, C):
     """skeleton index -> current index for tokens considered unchanged. When both versions have the same number of loops, the
